@@ -22,6 +22,10 @@ VERIF = os.path.abspath(os.path.join(HERE, ".."))
 sys.path.insert(0, VERIF)
 os.environ.setdefault("MPLBACKEND", "Agg")
 os.environ.setdefault("OPTICOMLIB_VERIF", "1")
+# the implementation under test: /repo's working tree (VERIF_REPO may point to a scratch worktree when a
+# seeded change is being tried out without touching /repo); first on sys.path so `import opticomlib` is that tree
+REPO = os.environ.get("VERIF_REPO", "/repo")
+sys.path.insert(0, REPO)
 
 from harness.common import lean, findings  # noqa: E402
 
